@@ -188,6 +188,7 @@ def consts_tie():
     if rc != 0:
         return False, "bbverif consts failed: " + out
     path = os.path.join(COQ, "Tie", "GenConsts.v")
+    os.makedirs(os.path.dirname(path), exist_ok=True)
     with open(path, "w") as f:
         f.write(out)
     scratch = os.path.join(SHM, "verif.tie.%d" % os.getpid())
